@@ -24,7 +24,7 @@ def main():
     rec = dict(backend=backend, mode=mode)
     try:
         lab = labtech.Lab(storage=os.path.join(wd, 's'), runner_backend=backend, max_workers=2)
-        tasks = [rtasks.Sleeper(k=i, seconds=2.5, block_sigterm=(mode == 'double_block')) for i in range(4)]   # 2 run at once, 2 stay queued
+        tasks = [rtasks.Sleeper(k=i, seconds=2.5, block_sigterm=(mode == 'double_block'), external=(mode == 'single_ext')) for i in range(4)]   # 2 run at once, 2 stay queued
         pid = os.getpid()
 
         def ctrl_c():
